@@ -13,7 +13,7 @@ vars == <<apiVars, osVars>>
 TraceInit == ApiInit /\ OsInit
 
 Consume == step' = step + 1
-ApiSame == UNCHANGED <<live, heaps, dflt, backing, flux, arenas, osfail, cfg>>
+ApiSame == UNCHANGED <<live, heaps, dflt, backing, flux, arenas, osfail, cfg, pcm>>
 
 \* does this return hand a (written) block to the program?
 ReturnsBlock(ev) == /\ ev.t \in DOMAIN flux /\ flux[ev.t] # NoCall
@@ -32,7 +32,7 @@ TraceNext ==
        [] ev.e = "os" -> /\ Consume
                          /\ OsEvent(ev, live)
                          /\ IF ev.ok THEN UNCHANGED osfail ELSE OsRefused
-                         /\ UNCHANGED <<live, heaps, dflt, backing, flux, arenas, cfg>>
+                         /\ UNCHANGED <<live, heaps, dflt, backing, flux, arenas, cfg, pcm>>
        [] ev.e = "clock" -> Consume /\ OsClock(ev) /\ ApiSame
        [] ev.e = "areas" -> Consume /\ OsAreas(ev, live) /\ ApiSame
        [] ev.e = "mark" -> Consume /\ OsMark(ev, live) /\ ApiSame
@@ -40,15 +40,16 @@ TraceNext ==
        [] ev.e = "cfg" -> /\ Consume
                           /\ cfg' = ev
                           /\ OsCfg(ev)
-                          /\ UNCHANGED <<live, heaps, dflt, backing, flux, arenas, osfail>>
+                          /\ UNCHANGED <<live, heaps, dflt, backing, flux, arenas, osfail, pcm>>
        [] ev.e = "crash" -> /\ Consume
                             /\ GD("NoCrash", ev.sig, FALSE)
                             /\ ApiSame /\ OsSkip
        [] ev.e = "reset" -> /\ Consume
                             /\ live' = <<>> /\ heaps' = (1 :> [t |-> 0, backing |-> TRUE, arena |-> 0, desc |-> 0])
                             /\ dflt' = (0 :> 1) /\ backing' = (0 :> 1) /\ flux' = (0 :> NoCall) /\ arenas' = <<>>
-                            /\ osfail' = (0 :> FALSE) /\ UNCHANGED cfg
+                            /\ osfail' = (0 :> FALSE) /\ pcm' = <<0, 0>> /\ UNCHANGED cfg
                             /\ OsReset
+       [] ev.e = "round" -> Round(ev) /\ OsSkip
        [] ev.e = "end" -> Consume /\ ApiSame /\ OsSkip
        [] OTHER -> FALSE
 
